@@ -13,7 +13,8 @@ class C20(Prop):
           "HsmWithQueues (handlers post/defer/recall/scribble; operations post, defer, recall, "
           "next_rtc, complete_circuit; one history in eight has 255-350 queued events so that more "
           "than 500 transitions can occur); one case in four hosts the chart on a started ActiveObject under the "
-          "deterministic scheduler and reads the object's own trace(). Oracle from the reference model: trace() parsed line by "
+          "deterministic scheduler and reads the object's own trace() (sometimes after a subscribe made before the start); "
+          "a queued chart may have had an event deferred and recalled before its start, and may be started a second time at the end. Oracle from the reference model: trace() parsed line by "
           "line equals one record (start_at, top, resting state) for start_at followed by exactly "
           "one record (signal, previous state, new state) per step in which the model takes a "
           "transition, none for internally handled or ignored events, in order, last 500. "
@@ -26,8 +27,9 @@ class C20(Prop):
 
   def strategy(self, tier):
     from hypothesis import strategies as st
-    return st.tuples(spytrace.history(tier), st.sampled_from(["queued", "queued", "queued", "ao"])).map(
-      lambda t: dict(t[0], host=t[1]))
+    return st.tuples(spytrace.history(tier), st.sampled_from(["queued", "queued", "queued", "ao"]),
+                     st.sampled_from([None, None, "recall", "subscribe"]), st.integers(0, 3)).map(
+      lambda t: dict(t[0], host=t[1], pre=t[2], restart=(t[3] == 0)))
 
   def check(self, case, stats):
     if case.get("host") == "ao":
@@ -66,6 +68,20 @@ class C20(Prop):
     classes = []
     try:
       try:
+        sig0 = case["spec"]["sigs"][0]
+        if case.get("pre") == "recall" and host is None:
+          # something was deferred and recalled before the chart was started
+          run.model.external(["defer", sig0])
+          run.model.d.recall()
+          run.real.apply(["defer", sig0])
+          run.real.apply(["recall"])
+          classes.append("recall_before_start")
+        elif case.get("pre") == "subscribe" and host == "ao":
+          # the usual order for an active object: subscribe first, start afterwards
+          from miros.event import Event, signals
+          signals.append("VSUB")
+          run.real.chart.subscribe(Event(signal=signals["VSUB"]))
+          classes.append("subscribe_before_start")
         run.start()
         self.compare(run, "start_at")
         for idx, op in enumerate(case["ops"]):
@@ -80,6 +96,16 @@ class C20(Prop):
           self.compare(run, "op %d %s" % (idx, op))
         if len(run.exp_trace) == spytrace.RING:
           classes.append("ring_wrapped")
+        clears = any(a[0] == "clear_trace" for lst in (case["spec"].get("acts") or {}).values() for a in lst)
+        if case.get("restart") and host is None and not run.model.d.overflowed and not clears:
+          # the same chart object is started a second time: one more start record
+          from ..refmodel import Model
+          m2 = Model(case["spec"])
+          m2.start(case["start"])
+          run.real.chart.start_at(run.real.rt.fns[case["start"]])
+          run.exp_trace.append(("start_at", "top", spytrace.name_of(m2.cur)))
+          classes.append("started_twice")
+          self.compare(run, "second start_at")
       except spytrace.Desync:
         # the handlers' actions ran in another order / number than the model predicts (a chart
         # whose exit action queries the chart mid-transition, C01/C02 domain): not comparable
